@@ -358,16 +358,47 @@ def model_witness(exe_t, has_hook):
 
 
 # ------------------------------------------------------------------ entry points
+TOK_VOS = ["theories/Gen/TokGen.vo", "theories/Json/Tokenizer.vo", "theories/Json/TokTie.vo",
+           "theories/Json/TokenizerRun.vo", "theories/Gen/ClassifyGen.vo", "theories/Json/ClassifyTie.vo",
+           "theories/Props/C14.vo"]
+
+
+def compiled_tables_match(facts):
+    """does the COMPILED Gen/TokGen.vo hold the table that was just generated?  (guards against a
+    missed rebuild; the theorems are only as fresh as the .vo they were proved against)"""
+    pre = "From Ink.Data Require Import Types.\nFrom Ink.Gen Require Import TokGen ClassifyGen.\n"
+    try:
+        got = vlib.coq_eval(pre, ["flat_map (fun p => [fst p; snd p]) tok_escapes ++ [tok_unknown; if tok_unicode then 1 else 0]",
+                                  "join_with [10] std_get_keys ++ [0] ++ join_with [10] stream_prop_keys"], name="c14fresh")
+    except RuntimeError:
+        return False
+    esc = facts["tok.escapes"]
+    want0 = got[0][0:2 * len(esc):2] == esc and len(got[0]) == 2 * len(esc) + 2 \
+        and ord(got[0][-2]) == facts["tok.unknown"] and ord(got[0][-1]) == int(facts["tok.unicode"])
+    want1 = got[1] == "\n".join(facts["classify.std"]) + "\0" + "\n".join(facts["classify.stream"])
+    return want0 and want1
+
+
 def fresh_tables():
-    facts = gen_tables.run(["tok", "classify"])
-    # the tie must be re-proved against the table just written, whatever the file times say
-    for rel in ["theories/Gen/TokGen.vo", "theories/Json/Tokenizer.vo", "theories/Json/TokTie.vo",
-                "theories/Json/TokenizerRun.vo", "theories/Gen/ClassifyGen.vo", "theories/Json/ClassifyTie.vo"]:
-        try:
-            os.remove(os.path.join(vlib.VERIF, rel))
-        except FileNotFoundError:
-            pass
-    return facts
+    return gen_tables.run(["tok", "classify"])
+
+
+def prove(ctx, facts):
+    pr = ctx.proof("theories/Props/C14.v")
+    if pr["ok"] and not compiled_tables_match(facts):
+        # stale build products: rebuild the table-dependent files from scratch, once
+        for rel in TOK_VOS:
+            try:
+                os.remove(os.path.join(vlib.VERIF, rel))
+            except FileNotFoundError:
+                pass
+        ctx.coverage["obligations"] = ctx.coverage.get("obligations", 0) - pr["obligations"]
+        ctx.coverage["discharged"] = ctx.coverage.get("discharged", 0) - pr["discharged"]
+        ctx.notes.append("stale .vo detected for Gen/TokGen.v: table-dependent files rebuilt")
+        pr = ctx.proof("theories/Props/C14.v")
+        if pr["ok"] and not compiled_tables_match(facts):
+            raise RuntimeError("compiled Gen/TokGen.vo does not match the generated table")
+    return pr
 
 
 def run(ctx):
@@ -379,7 +410,7 @@ def run(ctx):
     exe_s = vlib.build_harness(features=feats)
     exe_t = os.path.join(os.path.dirname(exe_s), "tokdrive")
 
-    pr = ctx.proof("theories/Props/C14.v")
+    pr = prove(ctx, facts)
 
     n = 200 if ctx.quick() else 3000
     try:
